@@ -4,7 +4,7 @@
 r=$1; p=$2; shift 2
 git -C $r apply $p || { echo "APPLY-FAILED $p"; exit 2; }
 for c in "$@"; do
-  VERIF_REPLAY_DIR=/tmp/tryreplays /verif/check $c quick -no-evidence -repo $r > /tmp/try_$(basename $(dirname $p))_$c.log 2>&1; e=$?
-  echo "$p: check $c exit=$e; $(grep '^violation:' /tmp/try_$(basename $(dirname $p))_$c.log | head -2 | cut -c1-200 | tr '\n' '|') $(grep -c '^INCONCL' /tmp/try_$(basename $(dirname $p))_$c.log) inconclusive"
+  VERIF_REPLAY_DIR=${VERIF_REPLAY_DIR:-/tmp/tryreplays} /verif/check $c quick -no-evidence -repo $r > /tmp/try_$(basename $(dirname $(dirname $p)))_$(basename $(dirname $p))_$c.log 2>&1; e=$?
+  echo "$p: check $c exit=$e; $(grep '^violation:' /tmp/try_$(basename $(dirname $(dirname $p)))_$(basename $(dirname $p))_$c.log | head -2 | cut -c1-200 | tr '\n' '|') $(grep -c '^INCONCL' /tmp/try_$(basename $(dirname $(dirname $p)))_$(basename $(dirname $p))_$c.log) inconclusive"
 done
 git -C $r apply -R $p
